@@ -86,7 +86,7 @@ def run(run, tier, seed):
                   "samples": [[{"seq": bytes(r["seq"]).decode(), "off": r["off"], "rev": r["rev"]} for r in recs] for recs in beh["samples"]],
                   "pre_strict": True, "pre_literal": True}
             sb.reset()
-            events.append(align_scenario(sb, sc, ["r%d_%d" % (bi, i) for i in range(len(sc["samples"]))], "skf"))
+            events.append(align_scenario(sb, sc, ["r%d_%d" % (bi, (7 * i + 3) % 11) for i in range(len(sc["samples"]))], "skf"))
             run.replayed += 1
         ncase = 40 if tier == "quick" else 600
         for ci in range(ncase):
@@ -106,7 +106,7 @@ def run(run, tier, seed):
             sb.reset()
             via = "fastas" if (k == 17 and ci % 8 == 0) else "merged" if (ns >= 3 and ci % 4 == 1) else "skf"
             # sequence files given directly are named after the file stem; stems with dots, as assemblies often have
-            nm_of = (lambda i: "iso%d.%d%s" % (ci, i, ".asm" if i % 2 else "")) if via == "fastas" else (lambda i: "a%d_%d" % (ci, i))
+            nm_of = (lambda i: "iso%d.%d%s" % (ci, i, ".asm" if i % 2 else "")) if via == "fastas" else (lambda i: "a%d_%d" % (ci, (7 * i + 3) % 11))   # input order is not the alphabetical order of the names
             ev = align_scenario(sb, sc, [nm_of(i) for i in range(ns)], via,
                                 threads=rng.choice([1, 2]))
             run.evaluations += 1
